@@ -9,3 +9,5 @@ import TsVerif.C03.Props
 #print axioms TsVerif.C03.dyn_sound
 #print axioms TsVerif.C03.pratt_yield
 #print axioms TsVerif.C03.pratt_respects
+#print axioms TsVerif.C03.glr_yield
+#print axioms TsVerif.C03.glr_select_max
